@@ -1,15 +1,92 @@
 """C16 -- see DESIGN.md; obligations + oracle sweep."""
 from .. import common as C, generic as G
 
-TRUSTED = ['Coq 8.16.1 kernel + vm_compute', 'translator/py2coq.py + translator/tables.py', 'Coq Reals: all algebraic statements are exact-real; LAPACK least-squares/QR/SVD are oracles (not modelled); rounding and conditioning are only validated', 'oracle harness harness/oracles/C16.py']
+TRUSTED = ['Coq 8.16.1 kernel + vm_compute', 'translator/py2coq.py + translator/tables.py', 'Coq Reals: all algebraic statements are exact-real; LAPACK least-squares/QR/SVD are oracles (not modelled); rounding and conditioning are only validated', 'oracle harness harness/oracles/C16.py', 'numpy J.T / np.dot(A, B) / scalar*matrix as Prelude.matT / matmat / map (vmap (mul c)): compared bit for bit (sequential dot substituted for BLAS) on the build_full_model calls of real solve() runs']
 PERRUN = ['Char_model.v', 'C16.v']
 GEN = ('Gen_util', 'Gen_model', 'Gen_tables')
 LEVEL = 'other'
 EXPLANATION = 'obligations: translation of the anchored functions + theorems listed in coverage.theorems; the remaining clauses are validated by the oracle sweep only'
 
 
+BFM_V = r"""
+From Coq Require Import ZArith List Bool String.
+Require Import DV.Base.Prelude DV.Base.F64 DV.Spec.Schema DV.Lib.Corr.
+From G Require Import Gen_util Gen_model.
+Import ListNotations.
+Open Scope Z_scope.
+(* a model state in which only the fields read by build_full_model are set: one stored point (the incumbent) *)
+Definition bfm_state (n m : Z) (xopt c : list F) (J : list (list F)) : @model_state ArithF64 :=
+  @mk_model ArithF64 n m 2 1 (vzeros n) (repeatZ (of_bits 18442240474082181120) n) (repeatZ (of_bits 9218868437227405312) n) [] [xopt] [vzeros m] [of_bits 0] 0 [1] [1]
+            (of_bits 0) (of_bits 0) (of_bits 0) c J None None None None None None None None false None None.
+Definition bfm_case (n m : Z) (xopt c : list F) (J : list (list F)) : Z :=
+  let '(g, H) := @py_model_build_full_model ArithF64 (bfm_state n m xopt c J) in hashZ (fl_vec g ++ fl_mat H).
+"""
+
+
+def bfm_task(args):
+    """calls of Model.build_full_model made by real dfols.solve() runs (sequential dot substituted for BLAS): inputs and the hash of (g, H)"""
+    seed, count = args
+    import warnings
+    import numpy as np
+    import dfols.model as dm
+    from .. import histcorr, modelio as IO
+    rng = np.random.default_rng(seed)
+    out = []
+    orig = dm.Model.build_full_model
+    old = (dm.sumsq, dm.np)
+
+    def bfm(self):
+        g, H = orig(self)
+        if len(out) < 400 and np.all(np.isfinite(self.model_jac)) and np.all(np.isfinite(self.model_const)):
+            out.append((int(self.n()), int(self.m()), np.array(self.xopt(), dtype=float), np.array(self.model_const, dtype=float), np.array(self.model_jac, dtype=float),
+                        IO.hashZ(IO.fl_vec(g) + IO.fl_mat(H))))
+        return g, H
+    dm.Model.build_full_model = bfm
+    dm.sumsq, dm.np = IO.seq_sumsq, IO.NpProxy()
+    try:
+        for _ in range(count):
+            spec = histcorr.gen_run(rng)
+            spec['lam'] = 0.0
+            with warnings.catch_warnings(), np.errstate(all='ignore'):
+                warnings.simplefilter('ignore')
+                histcorr.run_plain(spec)
+    finally:
+        dm.Model.build_full_model = orig
+        dm.sumsq, dm.np = old
+    return out
+
+
+def correspondence(ctx):
+    from .. import modelio as IO
+    res = C.parallel(bfm_task, [(ctx.seed * 43 + i + 11, ctx.scale(2, 20)) for i in range(16)], timeout_each=600)
+    cases = []
+    for t, st, r in res:
+        if st != 'ok':
+            ctx.oblige('correspondence:build_full_model', False, 'implementation side failed: %s %s' % (st, r))
+            return
+        cases += r[:ctx.scale(40, 400)]
+    body = BFM_V + 'Definition exp_ : list Z := [' + '; '.join(C.zlit(c[5]) for c in cases) + '].\n'
+    body += 'Definition got_ : list Z := [' + ';\n'.join('bfm_case %d %d %s %s %s' % (c[0], c[1], IO.vlit(c[2]), IO.vlit(c[3]), IO.mlit(c[4])) for c in cases) + '].\n'
+    body += 'Eval vm_compute in map (fun p => if Z.eqb (fst p) (snd p) then 1 else 0) (combine got_ exp_).\n'
+    ok, out = C.coq_eval(ctx, 'cases_bfm', body, '')
+    if not ok:
+        ctx.oblige('correspondence:build_full_model', False, C.first_error(out))
+        return
+    ls = C.parse_eval_lists(out)
+    flags = ls[0] if ls else []
+    bad = [i for i, f in enumerate(flags) if f != 1]
+    ctx.cov['build_full_model_calls_from_real_solve_runs'] = len(flags)
+    if len(flags) != len(cases) or not cases:
+        ctx.oblige('correspondence:build_full_model', False, 'evaluated %d of %d recorded calls' % (len(flags), len(cases)))
+    elif bad:
+        c = cases[bad[0]]
+        ctx.oblige('correspondence:build_full_model[%d]' % bad[0], False, 'regenerated build_full_model and the implementation differ on %d of %d recorded calls, first: n=%d m=%d J=%s' % (len(bad), len(cases), c[0], c[1], c[4].tolist()))
+    else:
+        ctx.oblige('correspondence:build_full_model(%d calls recorded in real solve() runs, g and H bit-exact on binary64)' % len(cases), True)
+
+
 def run(ctx):
-    return G.run(ctx, 'C16', LEVEL, GEN, PERRUN, TRUSTED, explanation=EXPLANATION)
+    return G.run(ctx, 'C16', LEVEL, GEN, PERRUN, TRUSTED, explanation=EXPLANATION, correspondence=correspondence, corr_needs=[])
 
 
 def replay(payload):
